@@ -99,7 +99,8 @@ def gen_pipeline(rng, n_rec, allow_sleep=True, family=False):
         outcome.setdefault(m, "ok")
     sleeps = {}
     if allow_sleep:
-        mode = rng.choice(["reverse", "random", "straggler", "none"])
+        # "burst": all tasks take the same time, so several finish before the master asks again
+        mode = rng.choice(["reverse", "random", "straggler", "none", "burst", "burst"])
         for j, m in enumerate(members):
             if mode == "reverse":
                 sleeps[m] = round(0.08 * (len(members) - j), 2)
@@ -107,10 +108,14 @@ def gen_pipeline(rng, n_rec, allow_sleep=True, family=False):
                 sleeps[m] = round(rng.random() * 0.5, 2)
             elif mode == "straggler" and j == 0:
                 sleeps[m] = 0.8
+            elif mode == "burst":
+                sleeps[m] = 0.12
     return dict(
         loader=dict(rules=lrules, default=["ret", 2, deltas[0]]),
         steps=[dict(flavour=f, rules=srules[i], default=["ret", 2, deltas[i + 1]]) for i, f in enumerate(flavours)],
         sleeps=sleeps, members=members, outcome=outcome, fn_step=rng.random() < 0.4,
+        # the master (writer) is slower than the workers for some runs: results pile up between two polls
+        consumer_delay=(rng.choice([0.0, 0.03, 0.06]) if allow_sleep else 0.0),
     )
 
 
@@ -234,8 +239,12 @@ def run_apply(ctx, tag, spec, inputs_members, store_kind, parallel, max_workers,
     order = []
     orig = writer.main
 
+    delay = float(spec.get("consumer_delay") or 0.0) if parallel else 0.0
+
     def main(*a, **kw):
         order.append(kw.get("identifier"))
+        if delay:
+            time.sleep(delay)  # a slow consumer: several workers finish before the master asks for the next result
         return orig(*a, **kw)
 
     writer.main = main
@@ -551,7 +560,8 @@ def _corr_parallel_book(ctx, out):
 
 
 def _spec_brief(spec):
-    return dict(loader=spec["loader"], steps=spec["steps"], sleeps=spec["sleeps"], fn_step=bool(spec.get("fn_step")))
+    return dict(loader=spec["loader"], steps=spec["steps"], sleeps=spec["sleeps"], fn_step=bool(spec.get("fn_step")),
+                consumer_delay=spec.get("consumer_delay", 0.0))
 
 
 def changed_spec(spec):
@@ -647,12 +657,13 @@ def spec_check(ctx, budget):
         if f:
             out["failures"].append(f)
     for writer in ("write_seqs", "write_json", "write_tabular", "write_db"):
-        out["evaluations"] += 1
-        f = _custom_id_case(ctx, dict(kind="custom_id", writer=writer))
-        if f:
-            out["failures"].append(f)
-        else:
-            out["nontrivial"].add(("custom_id", writer))
+        for par in (False, True):
+            out["evaluations"] += 1
+            f = _custom_id_case(ctx, dict(kind="custom_id", writer=writer, parallel=par, max_workers=2))
+            if f:
+                out["failures"].append(f)
+            else:
+                out["nontrivial"].add(("custom_id", writer, par))
     _parallel_direct(ctx, out, budget)
     from .c14_forms import forms_stream
 
@@ -686,7 +697,8 @@ def _custom_id_case(ctx, w):
     app = A.c14_load_named(plan=plan) + wapp
     exc = None
     try:
-        app.apply_to(paths, id_from_source=A.dir_qualified_id, logger=False, show_progress=False)
+        pkw = dict(parallel=True, par_kw=dict(max_workers=w.get("max_workers", 2))) if w.get("parallel") else {}
+        app.apply_to(paths, id_from_source=A.dir_qualified_id, logger=False, show_progress=False, **pkw)
     except Exception as e:  # noqa
         exc = f"{type(e).__name__}: {e}"[:160]
 
@@ -705,7 +717,7 @@ def _custom_id_case(ctx, w):
         out = new_outcome()
         add_failure(out, "spec", f"{writer}: with a custom id_from_source (directory-qualified identifiers) the records are not stored one per input under "
                     "the identifier apply_to derived from the input", dict(w, inputs=[n + ".txt" for n in names], failing=sorted(failing)), exp, dict(exc=exc, **got),
-                    sig=f"custom-id:{writer}:{'apply_to-raises' if exc else 'records-differ'}")
+                    sig=f"custom-id:{writer}:{'apply_to-raises' if exc else 'records-differ'}" + (":parallel" if w.get("parallel") else ""))
         return out["failures"][0]
     return None
 
@@ -773,18 +785,23 @@ def _source_inputs_case(ctx, w):
     return None
 
 
-def _parallel_case(fn, n, mw, cs):
-    """util.parallel.<fn>(slow_square, range(n), max_workers=mw, chunksize=cs): (expected, got)"""
+def _parallel_case(fn, n, mw, cs, delay=0.0, same=False):
+    """util.parallel.<fn>(slow_square, range(n), max_workers=mw, chunksize=cs): (expected, got); `delay`: the consumer sleeps that long
+    after every result (completion bursts: several tasks finish between two polls of the master); `same`: all tasks take equally long"""
     from cogent3.util import parallel as PAR
 
-    from .c14_funcs import slow_square
+    from .c14_funcs import even_square, slow_square
 
     kw = dict(max_workers=mw)
     if cs is not None:
         kw["chunksize"] = cs
     exp = [[x, x * x] for x in range(n)]
     try:
-        got = [list(r) for r in getattr(PAR, fn)(slow_square, list(range(n)), **kw)]
+        got = []
+        for r in getattr(PAR, fn)(even_square if same else slow_square, list(range(n)), **kw):
+            got.append(list(r))
+            if delay:
+                time.sleep(delay)
     except Exception as e:  # noqa
         return exp, f"{type(e).__name__}: {e}"[:160]
     if fn == "as_completed":
@@ -800,16 +817,23 @@ def _parallel_direct(ctx, out, budget):
         rng = ctx.subrng(f"pardirect{key}")
         grid = [(fn, n, mw, cs) for fn in ("as_completed", "imap", "map") for n in range(1, 13) for mw in range(1, 7) for cs in (None, 1, 2, 3, 4, 7)]
         must = [("as_completed", 10, 3, 3), ("as_completed", 10, 2, 4), ("imap", 10, 3, 4), ("map", 11, 2, 7), ("as_completed", 1, 1, None), ("imap", 5, 6, 7)]
-        cases = must + rng.sample(grid, ctx.budget(20, 400) * (1 if key == 1 else 2))
+        cases = [c + (0.0, False) for c in must + rng.sample(grid, ctx.budget(16, 400) * (1 if key == 1 else 2))]
+        # completion bursts: a consumer slower than the tasks, tasks of equal / of skewed duration, any worker count
+        cases += [("as_completed", 12, 1, None, 0.03, True), ("as_completed", 14, 3, None, 0.04, True), ("as_completed", 10, 4, None, 0.05, False),
+                  ("imap", 9, 2, 2, 0.03, True)]
+        cases += [(rng.choice(["as_completed", "as_completed", "imap"]), rng.randint(6, 16), rng.randint(1, 6), rng.choice([None, 1, 3]),
+                   rng.choice([0.02, 0.04, 0.06]), rng.random() < 0.6) for _ in range(ctx.budget(3, 60) * (1 if key == 1 else 2))]
         cache[key] = [(c, _parallel_case(*c)) for c in cases]
-    for (fn, n, mw, cs), (exp, got) in cache[key]:
+    for (fn, n, mw, cs, delay, same), (exp, got) in cache[key]:
         out["evaluations"] += 1
-        bump(out, "parallel_direct", fn)
+        bump(out, "parallel_direct", fn + (":slow-consumer" if delay else ""))
         if exp != got:
-            add_failure(out, "spec", f"util.parallel.{fn} does not return every task's result exactly once" + (" in order" if fn != "as_completed" else ""),
-                        dict(kind="parallel_direct", fn=fn, n=n, max_workers=mw, chunksize=cs), exp, got, sig=f"parallel:{fn}:results-differ")
+            add_failure(out, "spec", f"util.parallel.{fn} does not return every task's result exactly once" + (" in order" if fn != "as_completed" else "")
+                        + (" when the consumer is slower than the tasks (several tasks finish between two polls)" if delay else ""),
+                        dict(kind="parallel_direct", fn=fn, n=n, max_workers=mw, chunksize=cs, consumer_delay=delay, equal_durations=same), exp, got,
+                        sig=f"parallel:{fn}:results-differ")
         elif n > 1:
-            out["nontrivial"].add(("par", fn, n, mw, cs))
+            out["nontrivial"].add(("par", fn, n, mw, cs, delay, same))
 
 
 def _writer_type_case(ctx, w):
@@ -914,21 +938,22 @@ def replay(ctx, data):
         r = check_witness(ctx, inp)
         print(r)
         return r is not None
-    if inp.get("kind") in ("as_completed", "apply_form"):
+    if inp.get("kind") in ("as_completed", "apply_form", "qualified_id"):
         from .c14_forms import replay_case
 
         r = replay_case(ctx, inp)
         print(r)
         return r is not None
     if inp.get("kind") == "parallel_direct":
-        exp, got = _parallel_case(inp["fn"], inp["n"], inp["max_workers"], inp["chunksize"])
+        exp, got = _parallel_case(inp["fn"], inp["n"], inp["max_workers"], inp["chunksize"], inp.get("consumer_delay", 0.0), inp.get("equal_durations", False))
         print("expected", exp, "got", got)
         return exp != got
     if inp.get("kind") == "generated":
         spec = inp["spec"]
         spec = dict(loader=dict(rules={int(k): v for k, v in spec["loader"]["rules"].items()}, default=spec["loader"]["default"]),
                     steps=[dict(flavour=s["flavour"], rules={int(k): v for k, v in s["rules"].items()}, default=s["default"]) for s in spec["steps"]],
-                    sleeps={int(k): v for k, v in spec["sleeps"].items()}, members=inp["members"], outcome={}, fn_step=bool(spec.get("fn_step")))
+                    sleeps={int(k): v for k, v in spec["sleeps"].items()}, members=inp["members"], outcome={}, fn_step=bool(spec.get("fn_step")),
+                    consumer_delay=spec.get("consumer_delay", 0.0))
         cur = spec
         if inp.get("spec2"):
             s2 = inp["spec2"]
